@@ -1107,3 +1107,6 @@ func (w *World) WALFrames() (int, uint32) {
 	}
 	return len(d.Valid), d.Salt1
 }
+
+// ReadDB returns the bytes of the live database file through the persistent descriptor.
+func (w *World) ReadDB() ([]byte, error) { return w.readAllFD() }
